@@ -214,46 +214,6 @@ void fatal_error(e2fsck_t ctx, const char *msg)
 }
 #endif
 
-/* ------------------------------------------------------------------ checksum T-stubs */
-#if FEAT_CSUM >= 2
-static __u32 vf_blk_csum[NJ];	/* "the crc32c of journal block k": one symbolic word per block (set by the harness) */
-#define VF_SEED 0x5eed0001u
-#define VF_SEQMIX 0x5e900000u
-/* STUB: ext2fs_crc32c_le over a whole journal block held in a buffer returns that block's symbolic checksum word (T-stub: checksum validity is a free predicate per block); over the 4-byte sequence it returns a marker */
-__u32 ext2fs_crc32c_le(__u32 crc, unsigned char const *buf, size_t len)
-{
-	unsigned p;
-	__u32 r = 0;
-	unsigned long long k;
-
-	if (len == 4)
-		return VF_SEQMIX;
-	k = ((const char *) buf == VF_BH(0)->b_data) ? vf_s0.blocknr : vf_s1.blocknr;
-	for (p = 0; p < NJ; p++)
-		if (p == k)
-			r = vf_blk_csum[p];
-	(void) crc;
-	return r;
-}
-#endif
-#if FEAT_CSUM == 1
-static __u32 vf_blk_csum[NJ];
-/* STUB: ext2fs_crc32_be (checksum v1, running crc over descriptor and data blocks): T-stub crc' = rotl(crc,1) ^ word(block), so the value a commit block must carry is a known function of the per-block symbolic words in log order */
-__u32 ext2fs_crc32_be(__u32 crc, unsigned char const *buf, size_t len)
-{
-	unsigned p;
-	__u32 r = 0;
-	const struct buffer_head *bh;
-
-	(void) len;
-	bh = (const struct buffer_head *) ((const char *) buf - offsetof(struct buffer_head, b_data));
-	for (p = 0; p < NJ; p++)
-		if (p == bh->b_blocknr)
-			r = vf_blk_csum[p];
-	return ((crc << 1) | (crc >> 31)) ^ r;
-}
-#endif
-
 /* ------------------------------------------------------------------ journal constructor */
 static journal_t vf_journal;
 static journal_superblock_t vf_jsb;
@@ -298,7 +258,4 @@ static void vf_make_journal(__u32 s_first, __u32 s_sequence, __u32 s_start)
 	vf_journal.j_tail = s_start;
 	vf_journal.j_first = s_first;
 	vf_journal.j_last = NJ;
-#if FEAT_CSUM >= 2
-	vf_journal.j_csum_seed = VF_SEED;
-#endif
 }
